@@ -752,6 +752,22 @@ def c05_r4_override(repo, report, tier):
             n_plain += 1
             if mode != "phi:pair_filter_mode":
                 plain_bad.append({"term": k[:100], "mode": mode})
+    # every criterion that is not a length bound is evaluated on BOTH mates (the mode then combines the two answers): the
+    # two predicates of such a filter are the same criterion, and neither is missing
+    asym = []
+    n_sym = 0
+    for e in filt:
+        k = e["slot"].key
+        ta = term_args(repo, k)
+        p1, p2 = str(ta.get("predicate1", "")), str(ta.get("predicate2", ""))
+        if p1.startswith(("TooShort(", "TooLong(")) or p2.startswith(("TooShort(", "TooLong(")) or (p1 == "None" and p2 == "None"):
+            continue  # one-sided LEN:LEN2 bounds are C05.R5
+        n_sym += 1
+        if p1 != p2 or p1 in ("None", ""):
+            asym.append({"term": k[:110], "predicate1": p1[:50], "predicate2": p2[:50], "guard": _g(e["val"])})
+    report.ob("C05.R4", "non-length pair filters test the same criterion on both mates", not asym and n_sym >= 6, facts={"slots": n_sym, "problems": asym[:3]}, loc="src/cutadapt/cli.py", cases=n_sym,
+              expected="PairedEndFilter(P(...), P(...), ...) with identical predicates for --max-n, --max-ee, --max-aer, --discard-casava, --discard-trimmed and the untrimmed filters",
+              why=(f"{asym[0]['term']}: the second mate is judged by {asym[0]['predicate2']} (first: {asym[0]['predicate1']}): with a missing predicate the filter looks at one mate only whatever --pair-filter says" if asym else ""))
     report.ob("C05.R4", "untrimmed filters: 'both' iff adapters on one side only", not over_bad and n_over >= 4, facts={"slots": n_over, "problems": over_bad[:3]},
               expected="pair_filter_mode='both' iff (adapters or adapters2 empty) and an untrimmed option is used; otherwise the configured mode", loc="src/cutadapt/cli.py", cases=n_over,
               why=str(over_bad[0]) if over_bad else "")
